@@ -16,6 +16,7 @@ func init() { register("C11", checkC11) }
 
 func checkC11(c *Ctx) {
 	defer c11EscapeFastPath(c)
+	defer unicodeEscapeRule(c, "escape.inverse") // what the writer emits as \u / \U must be accepted by the reader
 	c11EscapeTables(c)
 	c11BareKeys(c)
 	c11TraversalSteps(c)
